@@ -115,6 +115,47 @@ def lookalike_script(rng, h265, ch, maxq, gop_len):
     sched += [[G.CONS, 0], [G.CONS, 1]] * 4
     return [G.FIXED, 2, maxq, rng.random() < 0.5, pkts, [0, 0], sched, [0, 0], False, 1, h265, False, rng.random() < 0.5]
 
+# ---- fragmented key frames: only the START fragment of an IRAP / IDR unit is a key-frame start -----------------
+def fragment_script(rng, h265):
+    """Key frames come as fragmentation units (HEVC FU type 49 / H.264 FU-A type 28): start, middle, end fragment.
+    A stalled consumer's backlog crosses the limit between the start and the end fragment of the second key frame
+    (dropping must not begin at the end fragment), and the consumer catches up between the start and the end
+    fragment of the third one (dropping must not end there)."""
+    g = rng.randint(1, 3)
+    maxq = 3 + g + rng.randint(0, 1)            # backlog at the 2nd start fragment <= limit < backlog at its end fragment
+    t = rng.choice([16, 19, 20, 21]) if h265 else 5
+    pkts, n = [], 0
+    def frag(fuh):
+        nonlocal n
+        n += 1
+        pkts.append(raw_pkt(rng, n, VIDEO, (49 << 1) if h265 else 0x7c, fuh if h265 else fuh << 8))
+    def inter():
+        nonlocal n
+        n += 1
+        pkts.append([n, 1])
+    def gop():
+        frag(0x80 | t); frag(t); frag(0x40 | t)
+        for _ in range(g):
+            inter()
+    sched = [[G.ATT, 0]] * 3 + [[G.ATT, 1]] * 3
+    done = 0
+    def publish(drain1):
+        nonlocal done, sched
+        while done < len(pkts):
+            done += 1
+            sched += [[G.PUB, 0]] * 3 + [[G.CONS, 0]] * 2 + ([[G.CONS, 1]] * 2 if drain1 else [])
+    gop(); gop()
+    frag(0x80 | t); frag(t)
+    publish(False)
+    sched += [[G.CONS, 1]] * (2 * len(pkts) + 6)   # catches up completely between start and end fragment
+    frag(0x40 | t)
+    for _ in range(g):
+        inter()
+    gop()
+    publish(True)
+    sched += [[G.CONS, 0], [G.CONS, 1]] * 6
+    return [G.FIXED, 2, maxq, rng.random() < 0.5, pkts, [0, 0], sched, [0, 0], False, 1, h265, False, False]
+
 # ---- the conversion chain: RTP in -> rtp demuxer -> FLV muxer -> WriteFlvTag -> FLV consumers ---------------
 # For an FLV consumer the key flag that starts and stops dropping is the frame type the FLV packetizer writes.
 # Chain cases publish single-NAL video RTP packets (every NAL type that starts a key frame: H.264 IDR; HEVC
@@ -228,7 +269,7 @@ def run(ck):
         a = rng.randint(0, npk)
         cases.append(stall_case(rng, maxq, npk, g, a, rng.randint(a, npk + 5), gop=rng.random() < 0.5, h265=rng.random() < 0.5))
     cases += [G.rand_case(rng, G.FIXED, maxq=rng.randint(1, 4), max_pkts=30, max_len=160, panic_p=0.3)
-              for _ in range(30 if not ck.thorough else 800)]
+              for _ in range(28 if not ck.thorough else 800)]
     # the real limit of 1000: a few long scripts
     for _ in range(1 if not ck.thorough else 12):
         npk = rng.randint(1100, 1250) if not ck.thorough else rng.randint(1300, 1800)
@@ -249,6 +290,7 @@ def run(ck):
     joins.append(late_join_script(rng, rng.random() < 0.3, rng.random() < 0.5, rng.randint(1, 4), True))
     ck.stream("join-replay-longer-than-limit", joins, "C04_lts", "C04_lts", "C04_ok",
               nontrivial=lambda c: True, sig=lambda c, e, o: "lts-join", timeout=900)
+    scripts += [fragment_script(rng, True), fragment_script(rng, False)]
     ck.stream("not-video-looks-like-key", scripts, "C04_lts", "C04_lts", "C04_ok",
               nontrivial=lambda c: True, sig=lambda c, e, o: "lts-lookalike", timeout=900)
     # the conversion chain: RTP in, FLV consumers served by rtp demuxer -> FLV muxer -> WriteFlvTag
